@@ -733,7 +733,9 @@ func (h *c07Harness) actOpen(t *rapid.T) error {
 		}
 
 		existing := h.sortedOut()
-		if len(existing) > 0 && r == 19 {
+		if len(existing) > 0 &&
+			rapid.IntRange(0, 11).Draw(t, "dupKeystone") == 7 {
+
 			// duplicate of an existing keystone
 			ks.OutKey = rapid.SampledFrom(existing).Draw(t, "dupOut")
 		} else {
